@@ -164,6 +164,9 @@ structure LogSt where
   hist : List (Nat × List Nat) := []
   /-- what each peer had outstanding at its previous output (to recognise a newly issued Interest) -/
   lastPend : List (Nat × String) := []
+  /-- the last sequence number each peer was told (from the ops) and whether it has a path (from the ops) -/
+  told : List (Nat × Nat) := []
+  reachS : List Nat := []
 
 def idsText (l : List Nat) : String := dashIfEmpty (".".intercalate ((Spec.sortNat l).map toString))
 
@@ -230,9 +233,12 @@ def specPeerCheck (s : LogSt) (b : Nat) (got : String) : List SpecFail :=
             [⟨"log-replay", "peer-set", s!"peer {b} at sequence {known} holds {st}, the publisher's set at that sequence was {idsText want}"⟩]
         | none => [⟨"log-replay", "peer-seq", s!"peer {b} is at sequence {known}, which the publisher never published"⟩]
     let completeFail :=
-      if pe == "-" && fe == "0" && la.toNat? == some s.sSeq && known != s.sSeq then
-        [⟨"log-complete", "behind", s!"peer {b} knows the latest sequence {s.sSeq}, has nothing outstanding, but stays at {known}"⟩]
-      else []
+      match s.told.find? (·.1 == b) with
+      | some (_, t) =>
+        if s.reachS.contains b && pe == "-" && fe == "0" && known < t then
+          [⟨"log-complete", "behind", s!"peer {b} was told sequence {t}, has a path to the publisher and nothing outstanding, but stays at {known}"⟩]
+        else []
+      | none => []
     -- a newly issued Interest follows the fetch rule: sequence gap > 100 forces a snapshot
     let latest := la.toNat?.getD 0
     let prev := ((s.lastPend.find? (·.1 == b)).map (·.2)).getD "-"
@@ -355,6 +361,20 @@ def stepLog (s : LogSt) (f : List String) (got : String) : StepResult St :=
         let fails := if got == "skip" then [] else specPubCheck s1 got
         { st := .log { s1 with pub := pub' }, expected := some (dumpPub pub'), spec := fails, cov := ["burst"] }
       | none => skip
+    else if op == "reach" || op == "unreach" then
+      match peerOf id with
+      | none => skip
+      | some (b, q) =>
+        let up := op == "reach"
+        let s := if got == "skip" then s else
+          { s with reachS := if up then (if s.reachS.contains b then s.reachS else b :: s.reachS) else s.reachS.filter (· != b) }
+        let fails := if got == "skip" then [] else specPeerCheck s b got
+        let s := notePend s b got
+        if !up && !q.reach then { st := .log s, expected := some "skip", spec := fails }
+        else
+          let q' := if up then q.gainPath else q.losePath
+          { st := .log { s with peers := setPeer s.peers (b - 1) q' }, expected := some (dumpPeer q'), spec := fails,
+            cov := [if up then (if q.reach then "reach-again" else if q'.pend.isSome then "reach-starts-fetch" else "reach") else "unreach"] }
     else if op == "deliver" || op == "timeout" || op == "drain" then
       match peerOf id with
       | none => skip
@@ -383,6 +403,8 @@ def stepLog (s : LogSt) (f : List String) (got : String) : StepResult St :=
     | some (b, q), some off =>
       let high := if off < s.pub.seq.toNat then s.pub.seq - UInt64.ofNat off else s.pub.seq
       let q' := q.sync high
+      let s := if got == "skip" then s else
+        { s with told := (b, if off < s.sSeq then s.sSeq - off else s.sSeq) :: s.told.filter (·.1 != b) }
       let fails := if got == "skip" then [] else specPeerCheck s b got
       let s := notePend s b got
       { st := .log { s with peers := setPeer s.peers (b - 1) q' }, expected := some (dumpPeer q'), spec := fails,
@@ -427,7 +449,7 @@ def step (st : St) (op : String) (got : String) : StepResult St :=
         -- keep the spec replay meaningful even on an op the model does not know
         { st := st, expected := some "skip" }
     | .log s =>
-      if ["ann", "wd", "burst", "sync", "deliver", "timeout", "drain"].contains (f.headD "") then stepLog s f got
+      if ["ann", "wd", "burst", "sync", "reach", "unreach", "deliver", "timeout", "drain"].contains (f.headD "") then stepLog s f got
       else { st := st, expected := some "skip" }
 
 end C19Drv
